@@ -1343,6 +1343,14 @@ func remapIndex(ctx context.Context, mp *mhprimary.MultihashPrimary, buckets Buc
 		// If this file was already remapped, skip it.
 		_, err = os.Stat(doneName)
 		if !os.IsNotExist(err) {
+			// The marker is created before the remapped copy is renamed over
+			// the index file. If the copy is still there, that rename was
+			// interrupted, so finish it.
+			if _, err = os.Stat(tmpName); err == nil {
+				if err = os.Rename(tmpName, fileName); err != nil {
+					return nil, fmt.Errorf("error renaming remapped file %s to %s: %w", tmpName, fileName, err)
+				}
+			}
 			log.Infow("index file already remapped", "file", fileName)
 			indexCount += len(bucketPrefixes)
 			continue
